@@ -841,6 +841,12 @@ def query_pool(family, p, rng):
             hi = int(min(p._upperbnd))
             if hi - lo < 2:
                 lo, hi = int(p._lowerbnd[0]), int(p._upperbnd[0])
+            if hi - lo < 1:
+                # (non-integer cached bounds: use the integers the class documents, floor / ceil)
+                import math as _m
+                lo, hi = int(_m.floor(float(p._lowerbnd[0]))), int(_m.ceil(float(p._upperbnd[0])))
+            if hi - lo < 1:
+                return []
         else:
             lo, hi = -3, 3
         pts = []
